@@ -174,7 +174,16 @@ fn run_scenario(ctx: &Ctx, cons: &ckb_chain_spec::consensus::Consensus, m: &Mate
         delivered.insert(seq[k]);
         k += burst;
         step += 1;
-        node.quiesce()?;
+        if let Err(e) = node.quiesce() {
+            // every delivery is answered or held as an orphan within milliseconds; a delivery that
+            // is neither after 20 s means the chain service has stopped working (e.g. one of its
+            // threads died): later blocks would never be adopted
+            if e.starts_with("no quiescence") {
+                viol(&mut report, "delivery-never-answered", format!("a delivered block got no verdict and is not held as an orphan 20 s after delivery: {e}"), step);
+                return Ok(report);
+            }
+            return Err(e);
+        }
 
         // ---- reference fork choice over the delivered set
         let in_v = |i: usize, delivered: &BTreeSet<usize>| -> bool {
